@@ -642,3 +642,167 @@ pub fn u_set_tcp_socket4() {
     assert!(others_absent, "C08: a socket setter writes only its own family's ip and port keys");
     core::mem::forget(e);
 }
+
+/// remove_insert that names the PUBLIC-KEY entry: removing "k" (`remove`) or inserting ("k", another
+/// key) must still leave the record keyed and signed by the signer (the signer's key is applied last)
+#[inline(always)]
+fn remove_insert_key_body(remove: bool) {
+    let seq = sym::u64();
+    let pk = any_pk();
+    let kraw0 = [0x81u8, pk];
+    let pre: [(&[u8], &[u8]); 2] = [(b"id", &ID_RAW), (KNAME, &kraw0)];
+    let p = pre_state(pk, seq, &pre);
+    let mut e = p.e;
+    let signer = any_key();
+    let before = snap(&e);
+    let other = any_pk();
+    let ov = [other];
+    let r = if remove {
+        let rm: [&[u8]; 1] = [KNAME];
+        e.remove_insert(rm.iter(), std::iter::empty::<(&[u8], &[u8])>(), &signer)
+    } else {
+        let ins: [(&[u8], &[u8]); 1] = [(KNAME, &ov)];
+        e.remove_insert(std::iter::empty::<&[u8]>(), ins.iter().map(|(k, v)| (*k, *v)), &signer)
+    };
+    let kraw = [0x81u8, signer.id];
+    let want: [(&[u8], &[u8]); 2] = [(b"id", &ID_RAW), (KNAME, &kraw)];
+    let res = r.map(|x| core::mem::forget(x));
+    let want_seq = seq.wrapping_add(1);
+    let causes = causes_for(p.sig_len, seq, &signer, &want, true, want_seq);
+    let pk_after = e.public_key().0;
+    step_obligations(&e, &before, &pre, &res, &signer, &want, want_seq, &causes, false);
+    assert!(res.is_err() || pk_after == signer.id, "C05: after an update the record carries the signer's public key");
+    assert!(res.is_ok() || pk_after == pk, "C06: a failed update leaves the public key in place");
+    core::mem::forget(e);
+}
+#[cfg_attr(kani, kani::proof)]
+#[cfg_attr(kani, kani::stub(enr::digest, digest_stub))]
+#[cfg_attr(kani, kani::stub(enr::Enr::id, id_stub))]
+#[cfg_attr(kani, kani::stub(<[u8]>::to_vec, to_vec_stub))]
+pub fn u_remove_insert_key_rm() {
+    remove_insert_key_body(true)
+}
+#[cfg_attr(kani, kani::proof)]
+#[cfg_attr(kani, kani::stub(enr::digest, digest_stub))]
+#[cfg_attr(kani, kani::stub(enr::Enr::id, id_stub))]
+#[cfg_attr(kani, kani::stub(<[u8]>::to_vec, to_vec_stub))]
+pub fn u_remove_insert_key_ins() {
+    remove_insert_key_body(false)
+}
+
+/// remove_insert touching the SAME key in the remove list and in the insert pairs (replace idiom):
+/// removed = [old], inserted = [None]
+#[cfg_attr(kani, kani::proof)]
+#[cfg_attr(kani, kani::stub(enr::digest, digest_stub))]
+#[cfg_attr(kani, kani::stub(enr::Enr::id, id_stub))]
+#[cfg_attr(kani, kani::stub(<[u8]>::to_vec, to_vec_stub))]
+pub fn u_remove_insert_same() {
+    let seq = sym::u64();
+    let pk = any_pk();
+    let kraw0 = [0x81u8, pk];
+    let old = sym::u16();
+    let (oe, on) = ref_port_enc(old);
+    let pre: [(&[u8], &[u8]); 3] = [(b"id", &ID_RAW), (KNAME, &kraw0), (b"tcp", &oe[..on])];
+    let p = pre_state(pk, seq, &pre);
+    let mut e = p.e;
+    let signer = any_key();
+    let before = snap(&e);
+    let newp = sym::u16();
+    sym::assume(newp >= 256);
+    let pl = [(newp >> 8) as u8, newp as u8];
+    let (ne, nn) = ref_port_enc(newp);
+    let rm: [&[u8]; 1] = [b"tcp"];
+    let ins: [(&[u8], &[u8]); 1] = [(b"tcp", &pl)];
+    let r = e.remove_insert(rm.iter(), ins.iter().map(|(k, v)| (*k, *v)), &signer);
+    let kraw = [0x81u8, signer.id];
+    let want: [(&[u8], &[u8]); 3] = [(b"id", &ID_RAW), (KNAME, &kraw), (b"tcp", &ne[..nn])];
+    let ret_ok = match &r {
+        Ok((removed, inserted)) => {
+            removed.len() == 1 && inserted.len() == 1 && inserted[0].is_none()
+                && matches!(&removed[0], Some(b) if b.as_ref() == &oe[..on])
+        }
+        Err(_) => true,
+    };
+    let res = r.map(|x| core::mem::forget(x));
+    let want_seq = seq.wrapping_add(1);
+    let causes = causes_for(p.sig_len, seq, &signer, &want, true, want_seq);
+    step_obligations(&e, &before, &pre, &res, &signer, &want, want_seq, &causes, false);
+    assert!(ret_ok, "C08: remove_insert returns the removed value and, for a key it removed first, no overwritten value");
+    core::mem::forget(e);
+}
+
+/// set_ip with an IPv4 address on {id,k}
+#[cfg_attr(kani, kani::proof)]
+#[cfg_attr(kani, kani::stub(enr::digest, digest_stub))]
+#[cfg_attr(kani, kani::stub(enr::Enr::id, id_stub))]
+#[cfg_attr(kani, kani::stub(<[u8]>::to_vec, to_vec_stub))]
+pub fn u_set_ip4() {
+    let seq = sym::u64();
+    let pk = any_pk();
+    let kraw0 = [0x81u8, pk];
+    let pre: [(&[u8], &[u8]); 2] = [(b"id", &ID_RAW), (KNAME, &kraw0)];
+    let p = pre_state(pk, seq, &pre);
+    let mut e = p.e;
+    let signer = any_key();
+    let before = snap(&e);
+    let ip: [u8; 4] = sym::bytes::<4>();
+    let r = e.set_ip(std::net::IpAddr::V4(std::net::Ipv4Addr::from(ip)), &signer);
+    let ipraw = [0x84u8, ip[0], ip[1], ip[2], ip[3]];
+    let kraw = [0x81u8, signer.id];
+    let want: [(&[u8], &[u8]); 3] = [(b"id", &ID_RAW), (b"ip", &ipraw), (KNAME, &kraw)];
+    let prev_none = matches!(r, Ok(None)) || r.is_err();
+    let res = r.map(|_| ());
+    let want_seq = seq.wrapping_add(1);
+    let causes = causes_for(p.sig_len, seq, &signer, &want, true, want_seq);
+    let back = e.ip4();
+    let no6 = e.ip6().is_none();
+    step_obligations(&e, &before, &pre, &res, &signer, &want, want_seq, &causes, true);
+    assert!(prev_none, "C08: a setter on an absent key returns no previous value");
+    assert!(res.is_err() || back == Some(std::net::Ipv4Addr::from(ip)), "C14: an address set through set_ip reads back as the value set");
+    assert!(no6, "C08: set_ip with an IPv4 address does not touch ip6");
+    core::mem::forget(e);
+}
+
+/// set_ip with an IPv6 address on {id,k} (incl. IPv4-mapped addresses): stored as 16 bytes under ip6
+#[cfg_attr(kani, kani::proof)]
+#[cfg_attr(kani, kani::stub(enr::digest, digest_stub))]
+#[cfg_attr(kani, kani::stub(enr::Enr::id, id_stub))]
+#[cfg_attr(kani, kani::stub(<[u8]>::to_vec, to_vec_stub))]
+pub fn u_set_ip6() {
+    let seq = sym::u64();
+    sym::assume(seq < (1u64 << 16));
+    let pk = any_pk();
+    let kraw0 = [0x81u8, pk];
+    let pre: [(&[u8], &[u8]); 2] = [(b"id", &ID_RAW), (KNAME, &kraw0)];
+    let p = pre_state(pk, seq, &pre);
+    let mut e = p.e;
+    let signer = any_key();
+    let before = snap(&e);
+    let mut ip = [0u8; 16];
+    // ::ffff:a.b.c.d (IPv4-mapped) or an arbitrary first/last byte
+    let mapped = sym::bool();
+    if mapped {
+        ip[10] = 0xff;
+        ip[11] = 0xff;
+    } else {
+        ip[0] = sym::u8();
+    }
+    ip[12] = sym::u8();
+    ip[15] = sym::u8();
+    let r = e.set_ip(std::net::IpAddr::V6(std::net::Ipv6Addr::from(ip)), &signer);
+    let mut ipraw = [0u8; 17];
+    ipraw[0] = 0x90;
+    ipraw[1..].copy_from_slice(&ip);
+    let kraw = [0x81u8, signer.id];
+    let want: [(&[u8], &[u8]); 3] = [(b"id", &ID_RAW), (b"ip6", &ipraw), (KNAME, &kraw)];
+    let res = r.map(|_| ());
+    let want_seq = seq.wrapping_add(1);
+    let causes = causes_for(p.sig_len, seq, &signer, &want, true, want_seq);
+    let back = e.ip6();
+    let no4 = e.ip4().is_none();
+    vcover!(res.is_ok() && mapped, "IPv4-mapped address stored");
+    step_obligations(&e, &before, &pre, &res, &signer, &want, want_seq, &causes, true);
+    assert!(res.is_err() || back == Some(std::net::Ipv6Addr::from(ip)), "C14: an address set through set_ip reads back as the value set");
+    assert!(no4, "C08: set_ip with an IPv6 address does not touch ip");
+    core::mem::forget(e);
+}
